@@ -240,6 +240,15 @@ type WOddSizePtr struct {
 	}
 }
 
+// omitempty on a collection says nothing about its elements: zero (but valid / non-nil) elements are values
+type WOmitColl struct {
+	L  []null.Int             `json:"l,omitempty"`
+	M  map[string]null.String `json:"m,omitempty"`
+	LP []*int64               `json:"lp,omitempty"`
+	LS []string               `json:"ls,omitempty"`
+	Q  int64
+}
+
 // a non-nil pointer to a zero value is not null
 type WPtrZero struct {
 	T *time.Time
@@ -429,6 +438,11 @@ func witnessCases() []witness {
 			t3 := time.Date(2038, 1, 19, 3, 14, 8, 999999000, time.FixedZone("", -5*3600))
 			n1, n2, ns := null.TimeFrom(t2), null.TimeFrom(t3), null.StringFrom("str")
 			return vals(WPtrTimes{&t1, &t2, &n1, &n2, &ns, &t3}, WPtrTimes{A: &t3, C: &n2}, WPtrTimes{&t2, &t1, &n2, &n1, &ns, &t1})(c)
+		}},
+		{staticOf[WOmitColl]("omitempty-collections-with-zero-elements"), func(c *driverCtx) []reflect.Value {
+			z := int64(0)
+			return vals(WOmitColl{L: []null.Int{null.IntFrom(0), null.IntFrom(5), {}}, M: map[string]null.String{"a": null.StringFrom(""), "b": null.StringFrom("x"), "c": {}}, LP: []*int64{&z, nil, &z}, LS: []string{"", "x", ""}, Q: 1},
+				WOmitColl{Q: 2}, WOmitColl{L: []null.Int{null.IntFrom(0)}, LS: []string{""}, Q: 3})(c)
 		}},
 		{staticOf[WPtrZero]("pointers-to-zero-values"), func(c *driverCtx) []reflect.Value {
 			zs, zi, zf := "", int64(0), 0.0
